@@ -147,3 +147,5 @@ Check eq_refl : to_ex 1 [XCancel (mkCReq (mkKey 0 0 0 1) None); XCancel (mkCReq 
                 = [XCancel (mkCReq (mkKey 1 0 0 2) None)].
 Check eq_refl : trade_pos (Some (mkPos 0 Buy 5)) 0 Sell 7 = (Some (mkPos 0 Sell 2), true).
 Check eq_refl : market_last (Some (5, 10)%Z) 5 11 = Some (5, 10)%Z.
+Check eq_refl : snapshot_orders [] (mkOrder (mkKey 0 0 0 1) Buy 1 2 Limit GTD OIF) (SnCIF None)
+                = [(1, mkOrder (mkKey 0 0 0 1) Buy 1 2 Limit GTD (CIF None))].
